@@ -28,6 +28,10 @@ type APIReq struct {
 	Diff  string `json:"diff"` // unified diff text (applydiff)
 	// watchdog for apply / parsepatch / augment (0 = default); a call that does not return in time is reported as "timeout"
 	TimeoutMs int `json:"timeout_ms,omitempty"`
+	// apply: sources that the same parsed patch is applied to before Src (their results are dropped), and the
+	// number of further applications of Src, whose results must all be the same bytes ("unstable:" otherwise)
+	Before []string `json:"before,omitempty"`
+	Repeat int      `json:"repeat,omitempty"`
 }
 
 type APIRes struct {
@@ -158,6 +162,9 @@ func cmdAPI(in, out string) error {
 		switch r.Op {
 		case "apply":
 			a := applyGuarded(r.Patch, r.Name, []byte(r.Src), wd(10*time.Second))
+			if len(r.Before) > 0 || r.Repeat > 0 {
+				a = applySeq(r.Patch, r.Name, r.Before, []byte(r.Src), r.Repeat, wd(20*time.Second))
+			}
 			res.Out, res.Err = string(a.out), a.err
 		case "applydiff":
 			o, err := ApplyUnifiedDiff(r.Src, r.Diff)
